@@ -413,4 +413,48 @@ def run(chk):
     chk.rule("R10-order", "removable namespaces whose used-set is fed by elements of a removable namespace (ordering / self reference)", no, floor=3)
     from . import diag
     diag.compare(chk, "R10-steps", "cleanup", cleanup_table(prog), "steps of cleanup (filters, recorded names, dropped entries, work-queue operations, predicate helpers and predicate closures) with their control predicates, compared with the reviewed table", floor=60)
+    # take / put back: a list that a cleanup step moves out of the module (`std::mem::take(&mut module.x)`, to iterate over it
+    # while it looks at the rest of the module) is stored back on every path to the function's return
+    nrest = 0
+    for fid, b in sorted(prog.bodies.items()):
+        if not fid.startswith("cleanup::") or b.kind == "Closure":
+            continue
+        refs_ = {}
+        for bi, si, st in b.stmts():
+            if st["k"] == "assign" and not st["p"]["p"] and st["rv"]["r"] == "ref":
+                pl = st["rv"]["p"]
+                flds = [x["f"] for x in pl["p"] if isinstance(x, dict) and "f" in x]
+                if 1 <= pl["l"] <= b.argc and len(flds) == 1:
+                    refs_[st["p"]["l"]] = (pl["l"], flds[0])
+        for bi, t in b.calls():
+            if not re.search(r"mem::take$", mir.strip_generics(t.get("res") or "")) or not t["args"]:
+                continue
+            ap = mir.op_place(t["args"][0])
+            tgt = None
+            l = ap["l"] if ap is not None and not ap["p"] else None
+            for _ in range(4):
+                if l in refs_:
+                    tgt = refs_[l]
+                    break
+                nxt = None
+                for bj, sj, s2 in b.stmts():
+                    if s2["k"] == "assign" and not s2["p"]["p"] and s2["p"]["l"] == l and s2["rv"]["r"] in ("ref", "use"):
+                        p2 = s2["rv"]["p"] if s2["rv"]["r"] == "ref" else mir.op_place(s2["rv"]["a"])
+                        if p2 is not None and all(x == "*" for x in p2["p"]):
+                            nxt = p2["l"]
+                if nxt is None:
+                    break
+                l = nxt
+            if tgt is None:
+                continue
+            writes = [bj for bj, sj, s2 in b.stmts() if s2["k"] == "assign" and s2["p"]["l"] == tgt[0] and [x["f"] for x in s2["p"]["p"] if isinstance(x, dict) and "f" in x] == [tgt[1]]]
+            if not writes:
+                continue        # taken for good (moved elsewhere): covered by R10-frame
+            nrest += 1
+            path = b.path_avoiding([t["t"]] if t.get("t") is not None else [], writes, b.return_blocks())
+            if path is not None and t.get("t") not in writes:
+                chk.add(Finding("R10-restore", "R10-restore::%s::%s" % (mir.strip_generics(fid), tgt[1]), "%s takes module.%s out of the module and can return without putting it back (path through blocks %s): every element of that list is deleted" % (fid, tgt[1], "->".join(str(x) for x in path[:10])), b.where(t["ln"])))
+    chk.rule("R10-restore", "lists moved out of the module for a cleanup step and stored back on every path to the return", nrest, floor=1)
+    from . import c13
+    c13.shared(chk, "R10-list", "cleanup finds groups, functions and units by name through ItemList")
     chk.assumptions += ["not decided: idempotence as such (R10-order is its necessary condition)"]
